@@ -90,6 +90,7 @@ type Spec struct {
 	SealChain int64
 	Mut       string
 	Root      []byte // state root override (default: derived from number and signer)
+	Vanity    int    // length of the vanity prefix of the extra data minus 32 (0 = the regular 32 bytes; -32 = none): validly sealed headers with short extra data
 }
 
 // IndexOf returns the universe index of a validator address (-1 if it is not one of the harness's keys).
@@ -122,7 +123,7 @@ func sortedAddrs(idx []int) []common.Address {
 
 // Build builds and seals a header.
 func Build(s Spec) *bsctypes.Header {
-	extra := make([]byte, 32)
+	extra := make([]byte, 32+s.Vanity)
 	for _, a := range sortedAddrs(s.List) {
 		extra = append(extra, a[:]...)
 	}
